@@ -28,13 +28,15 @@ def run(ctx):
     ctx.rule('R1', 'the queue is inserted only at the back; matching scans it front to back; removals erase a found element', 6)
     allowed = {push['q']: {'insert_back'}, find['q']: {'scan', 'erase'}, remove['q']: {'scan', 'erase'},
                clear['q']: {'read_back', 'remove_back'}, MQ + '::front': {'read_front'}}
+    _eff, _owners = lib.effective_allowed(allowed, lib.class_call_closure(P, A, 'simgrid::kernel::activity::'))
     for u in lib.field_uses(P, queue):
         if u.kind == 'write' and u.op == 'init':
             continue
         cls = u.kind if u.kind != 'call' else lib.CONTAINER_OPS.get(u.method, 'other:' + str(u.method))
         if cls == 'query':
             continue
-        ok = cls in allowed.get(u.fn['q'], set())
+        own = _owners(u.fn['q'])      # the operations of a private helper belong to the entry points that call it
+        ok = bool(own) and all(cls in _eff.get(o, set()) for o in own)
         ctx.check(ok, 'R1', 'queue op %s in %s' % (u.method or u.kind, u.fn['q'].replace('simgrid::kernel::activity::', '')), where(u.fn, u.line),
                   'class %s %s' % (cls, '' if ok else 'not allowed here'), key='R1|%s|%s' % (u.fn['q'].rsplit('::', 1)[-1], cls))
     ctx.count('call_sites', len(lib.field_uses(P, queue)))
